@@ -134,3 +134,102 @@ pub mod verif_kani {
     #[kani::stub(crate::key::ReconnectData::randomized, randomized_stub)]
     pub fn c02_into_server_cex() { let ok = c02_into_server_body(false); kani::cover!(!ok, "counterexample"); }
 }
+
+// Bounded native search over the public login / reconnect API against an independent num-bigint/SHA-1 implementation of WoW SRP6
+// (counterexample finder for C01, C02, C05; stand-in when a server.rs / client.rs function leaves the verifiable fragment)
+#[cfg(all(test, gtker_wow_srp_verif))]
+mod verif_search {
+    use super::*;
+    use crate::client::SrpClientChallenge;
+    use num_bigint::{BigInt, Sign};
+    use sha1::{Digest, Sha1};
+    struct Rng(u64);
+    impl Rng { fn next(&mut self) -> u64 { self.0 ^= self.0 << 13; self.0 ^= self.0 >> 7; self.0 ^= self.0 << 17; self.0 } fn bytes<const N: usize>(&mut self) -> [u8; N] { let mut b = [0u8; N]; for x in b.iter_mut() { *x = self.next() as u8; } b } }
+    fn h(parts: &[&[u8]]) -> [u8; 20] { let mut d = Sha1::new(); for p in parts { d.update(p); } d.finalize().into() }
+    fn le(b: &[u8]) -> BigInt { BigInt::from_bytes_le(Sign::Plus, b) }
+    fn pad32(v: &BigInt) -> [u8; 32] { let (_, b) = v.to_bytes_le(); let mut o = [0u8; 32]; o[..b.len()].copy_from_slice(&b); o }
+    fn ref_interleave(s: &[u8; 32]) -> [u8; 40] {
+        let mut t: &[u8] = &s[..];
+        while !t.is_empty() && t[0] == 0 { t = &t[1..]; }
+        if t.len() % 2 == 1 { t = &t[1..]; }
+        let ev: Vec<u8> = t.iter().step_by(2).copied().collect();
+        let od: Vec<u8> = t.iter().skip(1).step_by(2).copied().collect();
+        let (g, hh) = (h(&[&ev]), h(&[&od]));
+        let mut k = [0u8; 40];
+        for i in 0..20 { k[2 * i] = g[i]; k[2 * i + 1] = hh[i]; }
+        k
+    }
+    fn flip<const N: usize>(mut a: [u8; N], bit: usize) -> [u8; N] { a[bit / 8] ^= 1 << (bit % 8); a }
+
+    #[test]
+    fn verif_search_c01_api() {
+        let seed = std::env::var("VERIF_SEED").ok().and_then(|s| s.parse::<u64>().ok()).unwrap_or(0) ^ 0x9E3779B97F4A7C15;
+        let mut rng = Rng(seed);
+        let nn = le(&crate::LARGE_SAFE_PRIME_LITTLE_ENDIAN);
+        let g = BigInt::from(7);
+        let (hn, hg) = (h(&[&crate::LARGE_SAFE_PRIME_LITTLE_ENDIAN]), h(&[&[7u8]]));
+        let mut xh = [0u8; 20]; for i in 0..20 { xh[i] = hn[i] ^ hg[i]; }
+        let mut n = 0u64;
+        for round in 0..120 {
+            let ulen = 1 + (rng.next() % 16) as usize; let plen = 1 + (rng.next() % 16) as usize;
+            let uname: String = (0..ulen).map(|_| (0x20 + (rng.next() % 0x5f) as u8) as char).collect();
+            let pass: String = (0..plen).map(|_| (0x20 + (rng.next() % 0x5f) as u8) as char).collect();
+            let (uu, pp) = (uname.to_ascii_uppercase(), pass.to_ascii_uppercase());
+            let salt = rng.bytes::<32>();
+            let mut b = rng.bytes::<32>();
+            if round % 5 == 0 { b = [0u8; 32]; b[0] = (round / 5) as u8; }
+            n += 1;
+            let fail = |what: &str| println!("REPLAY-FAIL c01_api {} (round {}, user {:?}, pass {:?}, b {:02x?})", what, round, uname, pass, &b[..4]);
+            // registration, export / re-import
+            let ver = SrpVerifier::with_specific_salt(NormalizedString::new(&uname).unwrap(), NormalizedString::new(&pass).unwrap(), &Salt::from_le_bytes(salt));
+            let x = h(&[&salt, &h(&[uu.as_bytes(), b":", pp.as_bytes()])]);
+            let v = g.modpow(&le(&x), &nn);
+            if *ver.password_verifier() != pad32(&v) || *ver.salt() != salt || ver.username() != uu { fail("registration record differs from the definition"); return; }
+            let again = SrpVerifier::from_database_values(NormalizedString::new(ver.username()).unwrap(), *ver.password_verifier(), *ver.salt());
+            if again != ver { fail("export / re-import of the account record changes it"); return; }
+            // server challenge
+            let proof = match again.with_specific_private_key(PrivateKey::from_le_bytes(b)) { Ok(p) => p, Err(_) => continue };
+            let bpub = (BigInt::from(3) * &v + g.modpow(&le(&b), &nn)) % &nn;
+            if *proof.server_public_key() != pad32(&bpub) || *proof.salt() != salt { fail("server public key / salt differ from the definition"); return; }
+            // client, credentials typed in another letter case
+            let swap = |s: &str| -> String { s.chars().map(|c| if c.is_ascii_uppercase() { c.to_ascii_lowercase() } else { c.to_ascii_uppercase() }).collect() };
+            let client = SrpClientChallenge::new(NormalizedString::new(swap(&uname)).unwrap(), NormalizedString::new(swap(&pass)).unwrap(), 7, crate::LARGE_SAFE_PRIME_LITTLE_ENDIAN,
+                                                 PublicKey::from_le_bytes(*proof.server_public_key()).unwrap(), salt);
+            let a_pub = *client.client_public_key();
+            let uh = h(&[&a_pub, &pad32(&bpub)]);
+            let s = (le(&a_pub) * v.modpow(&le(&uh), &nn)).modpow(&le(&b), &nn);
+            let k = ref_interleave(&pad32(&s));
+            let m1 = h(&[&xh, &h(&[uu.as_bytes()]), &salt, &a_pub, &pad32(&bpub), &k]);
+            let m2 = h(&[&a_pub, &m1, &k]);
+            if *client.client_proof() != m1 { fail("client proof is not the WoW SRP6 value"); return; }
+            // altered proof is refused and both proofs are reported
+            let bit = (rng.next() % 160) as usize;
+            match proof.clone().into_server(PublicKey::from_le_bytes(a_pub).unwrap(), flip(m1, bit)) {
+                Ok(_) => { fail(&format!("server accepted a client proof with bit {} flipped", bit)); return; }
+                Err(e) => { if e.client_proof != flip(m1, bit) || e.server_proof != m1 { fail("MatchProofsError does not carry both proofs"); return; } }
+            }
+            let (mut server, sp) = match proof.into_server(PublicKey::from_le_bytes(a_pub).unwrap(), *client.client_proof()) { Ok(r) => r, Err(_) => { fail("server rejected the honest client"); return; } };
+            if sp != m2 || *server.session_key() != k { fail("server proof / session key differ from the definition"); return; }
+            if client.clone().verify_server_proof(flip(m2, bit)).is_ok() { fail(&format!("client accepted a server proof with bit {} flipped", bit)); return; }
+            let c = match client.verify_server_proof(sp) { Ok(c) => c, Err(_) => { fail("client rejected the honest server"); return; } };
+            if *c.session_key() != k { fail("session keys differ"); return; }
+            // reconnects
+            let mut prev: Option<([u8; 16], [u8; 20])> = None;
+            for attempt in 0..4 {
+                let chal = *server.reconnect_challenge_data();
+                let r = c.calculate_reconnect_values(chal);
+                if r.proof != h(&[uu.as_bytes(), &r.challenge_data, &chal, &k]) { fail("reconnect proof is not H(U | client data | server data | K)"); return; }
+                if attempt == 2 {
+                    if server.verify_reconnection_attempt(r.challenge_data, flip(r.proof, bit)) { fail("altered reconnect proof accepted"); return; }
+                    if *server.reconnect_challenge_data() == chal { fail("challenge not replaced after a rejected attempt"); return; }
+                    continue;
+                }
+                if !server.verify_reconnection_attempt(r.challenge_data, r.proof) { fail("legitimate reconnect rejected"); return; }
+                if *server.reconnect_challenge_data() == chal { fail("challenge not replaced after an accepted attempt"); return; }
+                if let Some((cd, p)) = prev { if server.verify_reconnection_attempt(cd, p) { fail("replayed reconnect pair accepted"); return; } }
+                prev = Some((r.challenge_data, r.proof));
+            }
+        }
+        println!("REPLAY-STATS c01_api inputs={} all-ok", n);
+    }
+}
